@@ -683,7 +683,11 @@ func (x *scanCtx) admissibleNeeds() []int64 {
 		if need < 0 {
 			need = 0
 		}
-		return []int64{need, need + 1}
+		out := []int64{need, need + 1}
+		if nt := nStarTol(a.ReqCPU, a.ReqMem, a.SizeCPU, a.SizeMem, g.ScaleUp) - int64(a.U); nt >= 0 && nt < need {
+			out = append([]int64{nt}, out...) // within the float tolerance of an integral need
+		}
+		return out
 	case kFromZero:
 		m := x.s.mem[g.Name]
 		if m == nil || !m.Seen {
@@ -693,7 +697,11 @@ func (x *scanCtx) admissibleNeeds() []int64 {
 			return nil
 		}
 		n := nStar(a.ReqCPU, a.ReqMem, m.CPU, m.Mem, g.ScaleUp)
-		return []int64{n, n + 1}
+		out := []int64{n, n + 1}
+		if nt := nStarTol(a.ReqCPU, a.ReqMem, m.CPU, m.Mem, g.ScaleUp); nt >= 0 && nt < n {
+			out = append([]int64{nt}, out...)
+		}
+		return out
 	}
 	return nil
 }
@@ -927,8 +935,9 @@ func (x *scanCtx) starveMustFire() (*v1.Pod, bool) {
 		}
 		sched := false
 		for _, c := range p.Status.Conditions {
-			if c.Type == v1.PodScheduled && c.Status == v1.ConditionTrue {
-				sched = true
+			if c.Type == v1.PodScheduled { // the first PodScheduled condition decides
+				sched = c.Status == v1.ConditionTrue
+				break
 			}
 		}
 		if sched && (p.Status.Phase == v1.PodPending || p.Status.Phase == v1.PodRunning) {
@@ -1538,8 +1547,8 @@ func (x *scanCtx) c15() {
 				x.s.stats.Probe("re-taint cycle")
 			}
 			noteTainted(x.s, c.Target)
-		case len(pe) == 1 && len(be) == 0:
-			// removal of exactly the escalator taint
+		case len(be) == len(pe)-1 && len(pe) >= 1:
+			// removal of exactly one taint under escalator's key (foreign taints were compared above)
 		case len(pe) == len(be):
 			for i := range pe {
 				if pe[i] != be[i] {
@@ -1896,6 +1905,13 @@ func (x *scanCtx) c19Fatal() {
 	}
 	if foreign == nil {
 		return
+	}
+	// DESIGN 4.3-3: exact outcomes need every call acknowledged, natural refusals included. If the cloud refused
+	// a terminate ahead of the non-member, DeleteNodes stopped there with a plain error and never reached it.
+	for _, c := range a.Terminates {
+		if c.Phase == phase && c.Err != "" {
+			return
+		}
 	}
 	x.check("c19-fatal")
 	x.s.stats.Probe("reap batch contains a non-member (" + phase + ")")
